@@ -488,6 +488,8 @@ type interp struct {
 	stopAtErr bool
 
 	diverged  bool
+	restored  bool  // classification only
+	startAt   *Node // start node (default: the first node of the first reader)
 	lastStmt  *Stmt // the statement entered most recently (the one a following error belongs to)
 	errNote   string
 	sawRandom bool // a random built-in was evaluated successfully: its value is not modelled
@@ -616,6 +618,9 @@ func (m *interp) run() {
 		return
 	}
 	m.cur = nodes[0]
+	if m.startAt != nil {
+		m.cur = m.startAt
+	}
 	for {
 		sg := m.block(m.cur.Body)
 		switch sg {
